@@ -6,6 +6,7 @@ import CtrlVerif.Driver.Config
 import CtrlVerif.Driver.Index
 import CtrlVerif.Driver.FRD
 import CtrlVerif.Driver.FRDTree
+import CtrlVerif.Driver.FRDHist
 import CtrlVerif.Driver.Dt
 import CtrlVerif.Driver.DtExpr
 import CtrlVerif.Driver.Nyquist
@@ -37,6 +38,7 @@ def dispatch (line : String) : String :=
   | "idx" :: rest => Index.handle rest
   | "frd" :: rest => FRD.handle rest
   | "frdtree" :: rest => FRDTree.handle rest
+  | "frdhist" :: rest => FRDHist.handle rest
   | "dt" :: rest => DtFam.handle rest
   | "dtx" :: rest => DtExprFam.handle rest
   | "nyq" :: rest => Nyquist.handle rest
